@@ -23,14 +23,14 @@ WORD = "http://schemas.openxmlformats.org/wordprocessingml/2006/main"
 NSDECL = f'xmlns:m="{MATH}" xmlns:w="{WORD}"'
 
 THEOREMS = [
-    "C19_total", "C19_deterministic", "C19_balanced", "C19_texts_in_order",
-    "C19_form_frac", "C19_form_sSup", "C19_form_sSub", "C19_form_sSubSup", "C19_form_rad", "C19_form_rad_deg",
+    "C19_total", "C19_deterministic", "C19_balanced",
+    "C19_form_frac", "C19_form_sSup", "C19_form_sSub", "C19_form_sSubSup", "C19_form_rad",
     "C19_form_nary", "C19_form_delim", "C19_form_matrix", "C19_form_func", "C19_form_bar", "C19_form_acc",
     "C19_own_operator",
-    "C19_orig_total_refuted", "C19_orig_balanced_refuted", "C19_orig_own_operator_refuted",
-    "C19_orig_none_rendered",
 ]
-INST = ["C19_tables_wf", "C19_known_witnesses_repaired"]
+INST = ["C19_tables_wf", "C19_structural_not_skipped", "C19_nobrace_witnesses",
+        "C19_orig_total_refuted", "C19_orig_balanced_refuted", "C19_orig_balanced_refuted_deg_order",
+        "C19_orig_own_operator_refuted", "C19_orig_none_rendered", "C19_known_witnesses_repaired"]
 
 
 # ----------------------------------------------------------------------------- G: tables
@@ -471,12 +471,20 @@ def shrink(mod, tree, pred):
     return tree
 
 
+REPORTED: dict = {}
+
+
 def check_tree(ctx, mod, tabs, tree, lost, kind):
     """run the implementation on one harness tree, apply the property oracle; returns (coq case, info)"""
     xml = to_xml(tree, root=True)
     e, out, exc = impl(mod, xml)
 
     def report(key_prefix, what, pred):
+        cat = key_prefix.split(":")[0]
+        REPORTED[cat] = REPORTED.get(cat, 0) + 1
+        if REPORTED[cat] > 2:  # two minimised inputs per kind of failure are enough; the rest is counted
+            ctx.count("further-failures:" + cat)
+            return
         small = shrink(mod, tree, pred)
         sx = to_xml(small)
         _, o2, x2 = impl(mod, to_xml(small, root=True))
@@ -664,10 +672,11 @@ META = {
                  "by vm_compute) + differential correspondence on ET-parsed trees + property oracle on the implementation",
     "design_ref": "DESIGN.md §5 C19",
     "level_text": "Kernel-checked theorems for ALL trees (no size bound) over the model of the repaired converter: totality (no "
-                  "exception), determinism, brace balance (proper nesting) for trees without literal braces, every run text "
-                  "in source order modulo whitespace/bracket characters for schema-shaped trees, the documented LaTeX form "
+                  "exception), determinism, brace balance (proper nesting) for trees without literal braces, the documented LaTeX form "
                   "of every structural element with operands in place, operators taken from the element's own property "
-                  "child; refutation theorems for the unrepaired variant.  The model is tied to the code by G-dumped tables "
+                  "child; refutation theorems for the unrepaired variant.  'Every run text once, in source order' is NOT a theorem yet: "
+                  "it is checked by the oracle on the implementation output (ordered-subsequence modulo whitespace/brackets) "
+                  "for every schema-shaped generated tree.  The model is tied to the code by G-dumped tables "
                   "and by running model and implementation on ~10k (quick) / ~100k (thorough) parsed trees.",
     "level_note": "Trusted: Coq kernel+VM; the G-dump printer and the ast extraction of the local dict literals; the "
                   "hand-written model (validated differentially, exact strings); ElementTree parsing/find semantics and "
